@@ -234,9 +234,9 @@ PROP = Prop(
           "the resampled scores themselves, >=8 scores per class, >=4 samples). Non-trivial = "
           "nb_samples >= 2."),
     clauses=[
-        Clause("wiring", check, strategy=_cases(), quick=200, thorough=1000, quick_shards=4,
+        Clause("wiring", check, strategy=_cases(), quick=200, thorough=8000, quick_shards=4,
                min_nontrivial=100, doc="rows = metric of j-th sample; CI wiring; identity collapse"),
-        Clause("seeds", check_seeds, strategy=_seed_cases(), quick=60, thorough=300, shards=4,
+        Clause("seeds", check_seeds, strategy=_seed_cases(), quick=60, thorough=2400, shards=4,
                min_nontrivial=20, doc="reproducible per seed, different across seeds"),
     ],
     assumptions=["the CI formula itself is C13's subject; here utils.bootstrap_ci is the reference "
